@@ -208,7 +208,13 @@ func c02History(c *vc.Ctx, idx int) {
 				items = append(items, c02Item{desc: fmt.Sprintf("vote#%d (%s) moved to a fresh %s payload", bk.id, bk.kind, kind), msg: msg, expect: mustFail, class: "moved"})
 			case x < 9: // fails after the signature check: nothing may move
 				var msg voteMsg
-				switch r.Intn(4) {
+				switch r.Intn(6) {
+				case 4: // a consolidation with two outputs
+					tx := bm.bc.FillerTx(wire.NewTxOut(int64(40_000+blk), world.SystemScript(bm.relKey)), wire.NewTxOut(1000, world.SystemScript(bm.relKey)))
+					msg = &bitcointypes.MsgNewConsolidation{Proposer: g.Proposer.AddrStr, NoWitnessTx: world.NoWitness(tx)}
+				case 5: // a consolidation paying a foreign key
+					tx := bm.bc.FillerTx(wire.NewTxOut(int64(40_000+blk), world.SystemScript(world.BtcPubKey(world.Derive(8, "f", 1), false))))
+					msg = &bitcointypes.MsgNewConsolidation{Proposer: g.Proposer.AddrStr, NoWitnessTx: world.NoWitness(tx)}
 				case 0: // a key that already exists
 					msg = &bitcointypes.MsgNewPubkey{Proposer: g.Proposer.AddrStr, Pubkey: bm.relKey}
 				case 1: // withdrawal paid to a wrong script
